@@ -441,6 +441,25 @@ def range_model(case):
             inits.append(helper.make_tensor(f"sh{i}", TensorProto.INT64, [rank + 1], [2] + [1] * rank))
             nodes.append(helper.make_node("Expand", [cur, f"sh{i}"], [out]))
             rank += 1
+        elif isinstance(op, list) and op[0] == "PadC":  # constant-mode Pad injects a new value
+            inits.append(helper.make_tensor(f"pads{i}", TensorProto.INT64, [2 * rank], [1] + [0] * (rank - 1) + [1] + [0] * (rank - 1)))
+            inits.append(helper.make_tensor(f"cv{i}", code, [], [op[1]]))
+            nodes.append(helper.make_node("Pad", [cur, f"pads{i}", f"cv{i}"], [out], mode="constant"))
+        elif isinstance(op, list) and op[0] in ("AddC", "MulC", "MaxC", "SubC"):
+            inits.append(helper.make_tensor(f"k{i}", code, [], [op[1]]))
+            nodes.append(helper.make_node({"AddC": "Add", "MulC": "Mul", "MaxC": "Max", "SubC": "Sub"}[op[0]], [cur, f"k{i}"], [out]))
+        elif isinstance(op, list) and op[0] == "ConcatC":
+            shape = [1] * (rank - 1) + [1]
+            inits.append(helper.make_tensor(f"cc{i}", code, shape, [op[1]]))
+            nodes.append(helper.make_node("Concat", [cur, f"cc{i}"], [out], axis=rank - 1))
+            if rank != 1:
+                nodes.pop()
+                inits.pop()
+                continue
+        elif op == "Neg":
+            nodes.append(helper.make_node("Neg", [cur], [out]))
+        elif op == "Abs":
+            nodes.append(helper.make_node("Abs", [cur], [out]))
         else:
             continue
         cur = out
@@ -451,7 +470,7 @@ def range_model(case):
     if case.get("mid_out"):
         outs.append(helper.make_tensor_value_info("m", narrow, None))
     g = helper.make_graph(nodes, "g", inputs, outs, initializer=inits)
-    model = helper.make_model(g, opset_imports=[helper.make_opsetid("", 23)], ir_version=10)
+    model = helper.make_model(g, opset_imports=[helper.make_opsetid("", 21)], ir_version=10)
     # the lowering always emits typed values; annotate intermediates the same way
     model = onnx.shape_inference.infer_shapes(model)
     return model, npdt
@@ -464,6 +483,42 @@ def _true_values(case):
         return None, None, 0
     last = s + (n - 1) * d
     return min(s, last), max(s, last), n
+
+
+def _chain_true_extrema(case):
+    """(min, max, n) of the values that reach the Cast, computed in Python ints (None, None, 0 when empty)."""
+    s, l, d = case["start"], case["limit"], case["delta"]
+    n = max(0, -(-(l - s) // d)) if d != 0 else 0
+    if n > 20000:
+        return _true_values(case)
+    vals = [s + i * d for i in range(n)]
+    rank1 = True
+    for op in case.get("chain", []):
+        if isinstance(op, list):
+            k = op[1]
+            if op[0] == "PadC":
+                vals = [k] + vals + [k]
+            elif op[0] == "AddC":
+                vals = [v + k for v in vals]
+            elif op[0] == "SubC":
+                vals = [v - k for v in vals]
+            elif op[0] == "MulC":
+                vals = [v * k for v in vals]
+            elif op[0] == "MaxC":
+                vals = [max(v, k) for v in vals]
+            elif op[0] == "ConcatC" and rank1:
+                vals = vals + [k]
+        elif op == "Neg":
+            vals = [-v for v in vals]
+        elif op == "Abs":
+            vals = [abs(v) for v in vals]
+        elif op in ("Unsqueeze", "Flatten", "Expand", "Transpose2"):
+            rank1 = False if op != "Transpose2" else rank1
+        elif op == "Reshape":
+            rank1 = True
+    if not vals:
+        return None, None, 0
+    return min(vals), max(vals), len(vals)
 
 
 def check_range_case(case, acc: Acc, use_ort=True):
@@ -482,14 +537,17 @@ def check_range_case(case, acc: Acc, use_ort=True):
     folded = y_casts < 2 and not (case.get("mid_out") and y_casts == 1 and False)
     # y is no longer produced by the second Cast when folded
     folded = not any(n.op_type == "Cast" and "y" in n.output for n in opt.graph.node)
-    lo, hi, n = _true_values(case)
+    lo, hi, n = _chain_true_extrema(case)
     nlo, nhi = INT_BOUNDS[case["narrow"]]
     slo, shi = INT_BOUNDS[case["src"]]
     preserving = nlo <= slo and nhi >= shi  # widening: always allowed
+    if n and not (slo <= lo and hi <= shi):
+        acc.count("chain_overflows_source_type_skipped")
+        return out
     fits = n == 0 or (lo >= nlo and hi <= nhi)
     dynamic = case.get("operands") == "input"
     nontrivial = (folded and not preserving) or (not fits)
-    key = (case["src"], case["narrow"], case["start"], case["limit"], case["delta"], tuple(case.get("chain", [])),
+    key = (case["src"], case["narrow"], case["start"], case["limit"], case["delta"], str(case.get("chain", [])),
            case.get("operands", "init"), bool(case.get("mid_out")))
     acc.case(key=key, nontrivial=nontrivial)
     acc.tally("range", "folded" if folded else "kept")
@@ -499,7 +557,8 @@ def check_range_case(case, acc: Acc, use_ort=True):
         acc.tally("range", "true_values_outside_narrow_type")
     if folded and not preserving and (dynamic or not fits):
         v = {"sig": {"kind": "narrowing_fold_unproven", "src": case["src"], "narrow": case["narrow"],
-                     "class": "dynamic_operand" if dynamic else "out_of_range", "chain": bool(case.get("chain"))},
+                     "class": "dynamic_operand" if dynamic else "out_of_range", "chain": bool(case.get("chain")),
+                     "value_changing_op": sorted({c[0] if isinstance(c, list) else c for c in case.get("chain", []) if isinstance(c, list) or c in ("Neg", "Abs")})},
              "case": dict(case, kind="range"),
              "detail": f"Range({case['start']},{case['limit']},{case['delta']}) true extrema ({lo},{hi}) vs {case['narrow']} [{nlo},{nhi}] folded"}
         acc.violation(v["sig"], v["case"], v["detail"])
@@ -567,7 +626,11 @@ def _work_range_hyp(sh, acc):
             start = max(slo, min(shi, start))
             delta = max(-(shi // 4), min(shi // 4, delta)) or 1
             limit = max(slo, min(shi, limit))
-        chain = draw(st.lists(st.sampled_from(["Identity", "Unsqueeze", "Reshape", "Flatten", "Transpose2", "Expand"]), max_size=4))
+        kvals = st.sampled_from([0, 1, -1, 2, nlo, nhi, nlo - 1, nhi + 1, 200, -129, 2**31 + 5, -(2**31) - 1, 70000])
+        preserving_op = st.sampled_from(["Identity", "Unsqueeze", "Reshape", "Flatten", "Transpose2", "Expand"])
+        changing_op = st.one_of(st.tuples(st.sampled_from(["PadC", "AddC", "SubC", "MulC", "MaxC", "ConcatC"]), kvals).map(list), st.sampled_from(["Neg", "Abs"]))
+        chain = draw(st.lists(st.one_of(preserving_op, preserving_op, changing_op), max_size=4))
+        chain = [c if not isinstance(c, list) or slo <= c[1] <= shi else "Identity" for c in chain]
         operands = draw(st.sampled_from(["init", "init", "const", "reshaped", "input"]))
         case = {"src": src, "narrow": narrow, "start": int(start), "limit": int(limit), "delta": int(delta), "chain": chain,
                 "operands": operands, "mid_out": draw(st.booleans())}
